@@ -45,9 +45,9 @@ NAMES = ["alpha", "beta", "gamma", "delta", "eps", "zeta", "eta", "theta"]
 
 
 @st.composite
-def template_program(draw):
-    kind = draw(st.sampled_from(["kwargs", "percent-keys", "or-union", "merge-union", "typeddict", "protocol", "in-union",
-                                 "set-literal", "format-keys", "dict-union", "generic-protocol", "generic-protocol", "collect", "collect"]))
+def template_program(draw, kinds=None):
+    kind = draw(st.sampled_from(kinds)) if kinds else draw(st.sampled_from(["kwargs", "percent-keys", "or-union", "merge-union", "typeddict", "protocol", "in-union",
+                                 "set-literal", "format-keys", "dict-union", "generic-protocol", "generic-protocol", "collect", "collect", "global-rebind", "use-builtin"]))
     names = draw(st.lists(st.sampled_from(NAMES), min_size=3, max_size=6, unique=True))
     head = "from typing import *\nfrom typing_extensions import *\n"
     if kind == "generic-protocol":
@@ -57,6 +57,16 @@ def template_program(draw):
         t = draw(st.sampled_from(["int", "str", "float", "bytes"]))
         u = draw(st.sampled_from(["int", "str", "float", "list[int]", "list[str]"]))
         return head + f"def want(x: {proto}[{t}]) -> None: ...\ndef g(i: {u}):\n    want(i)\n"
+    if kind in ("global-rebind", "use-builtin"):
+        # state that must not outlive a check: a function that rebinds a global / builtin name through
+        # `global`, and programs whose diagnostics mention builtins
+        bn = draw(st.lists(st.sampled_from(["len", "max", "abs", "sorted", "repr", "fresh_name_zz", "other_zz"]), min_size=1, max_size=3, unique=True))
+        if kind == "use-builtin":
+            body = "".join(f"    reveal_type({n})\n" for n in bn if not n.endswith("_zz")) or "    reveal_type(len)\n"
+            return head + "def g():\n" + body + "    reveal_type(len('ab'))\n    reveal_type(abs(-1))\n"
+        lit = draw(st.sampled_from(["1", "'s'", "None", "[1]"]))
+        decl = "".join(f"    global {n}\n    {n} = {lit}\n" for n in bn)
+        return head + "def g():\n" + decl + "def h():\n" + "".join(f"    reveal_type({n})\n" for n in bn)
     if kind == "collect":
         # surplus positional / keyword arguments of several types collected into *args / **kwargs, alone and
         # together with *sequence / **mapping arguments; the collected type appears in the mismatch message
@@ -207,6 +217,29 @@ def fresh_render(src):
     return render(res.diags)
 
 
+def isolated_renders(programs):
+    """Render of each program checked alone in its own fresh process (PYTHONHASHSEED=0): the reference
+    that no earlier check in the same process can have influenced."""
+    d = tempfile.mkdtemp(prefix="pv_c10_iso_")
+    try:
+        procs = []
+        for i, src in enumerate(programs):
+            batch, out = os.path.join(d, f"b{i}.json"), os.path.join(d, f"o{i}.json")
+            json.dump({"programs": [{"src": src}], "fresh_checker": True}, open(batch, "w"))
+            env = dict(os.environ, PYTHONHASHSEED="0")
+            env["PYTHONPATH"] = os.pathsep.join([os.environ.get("PV_REPO", "/repo"), ROOT, env.get("PYTHONPATH", "")])
+            procs.append((out, subprocess.Popen([sys.executable, "-m", "pv.c10_child", batch, out], cwd=ROOT, env=env,
+                                                stdout=subprocess.DEVNULL, stderr=subprocess.DEVNULL)))
+        res = []
+        for out, p in procs:
+            p.wait(timeout=600)
+            r = json.load(open(out))[0] if os.path.exists(out) else {"error": "no output"}
+            res.append(r.get("render"))
+        return res
+    finally:
+        shutil.rmtree(d, ignore_errors=True)
+
+
 def make_machine(pool, col, found):
     class History(RuleBasedStateMachine):
         def __init__(self):
@@ -227,7 +260,7 @@ def make_machine(pool, col, found):
                 a = diff_a[0] if diff_a else ["", 0, 0, ""]
                 b = diff_b[0] if diff_b else ["", 0, 0, ""]
                 failure = {"key": f"history|{a[0] or b[0]}|{skeleton(a[3] or b[3])}",
-                           "what": f"after history of {len(self.history) - 1} other checks the render differs from the fresh-checker baseline: "
+                           "what": f"after history of {len(self.history) - 1} other checks the render differs from the render in a fresh process: "
                                    f"{first_line(a[3])!r} vs {first_line(b[3])!r}",
                            "case": {"history": [pool[j][0] for j in self.history]}}
                 if not col.is_known(failure["key"]) and failure["key"] not in col.seen_keys:
@@ -267,19 +300,25 @@ def run_shard(spec):
     pool_holder = []
 
     @hypothesis.seed(seed)
-    @runner.hyp_settings(1, shrink=False)
-    @given(st.lists(program_strategy(), min_size=12, max_size=12))
-    def draw_pool(ps):
-        pool_holder.append(ps)
+    @runner.hyp_settings(8, shrink=False)
+    @given(st.lists(program_strategy(), min_size=9, max_size=9),
+           st.lists(template_program(kinds=["global-rebind", "use-builtin", "generic-protocol", "use-builtin", "global-rebind"]),
+                    min_size=4, max_size=4))
+    def draw_pool(ps, probes):
+        # every pool holds a few programs that write or read state shared between checks
+        pool_holder.append(list(ps) + list(probes))
     draw_pool()
+    # Hypothesis starts with the simplest example (twelve copies of one program): keep the most varied draw
+    pool_holder.sort(key=lambda ps: -len(set(ps)))
     pool = []
-    for src in pool_holder[0]:
-        try:
-            b = fresh_render(src)
-        except BaseException:
-            continue
-        if b is not None and fresh_render(src) == b:  # baseline itself must be stable in-process
+    srcs = list(dict.fromkeys(pool_holder[0]))
+    # baselines come from one fresh process per program (twice: the reference itself must be stable), so that
+    # state leaking between checks inside this process cannot contaminate them
+    first, second = isolated_renders(srcs), isolated_renders(srcs)
+    for src, b, b2 in zip(srcs, first, second):
+        if b is not None and b == b2:
             pool.append((src, b))
+    col.extra["history_pool_programs"] = col.extra.get("history_pool_programs", 0) + len(pool)
     if len(pool) < 2:
         return col.result()
     found = []
